@@ -14,6 +14,7 @@
 #include <netinet/in.h>
 #include <netinet/tcp.h>
 #include <arpa/inet.h>
+#include <poll.h>
 #include <atomic>
 #include <mutex>
 #include <thread>
@@ -134,6 +135,32 @@ struct Side {
 	}
 };
 
+// The two sessions talk through a forwarding thread, so that a partition can be injected: from one instant on everything either side
+// writes is accepted by its socket and silently lost (what a dying network path does), in both directions at once.
+struct Proxy {
+	int a = -1, b = -1;
+	std::atomic<bool> stop{false}, blackhole{false};
+	std::thread th;
+	void run() {
+		char buf[65536];
+		bool open_a = true, open_b = true;
+		while (!stop.load()) {
+			pollfd p[2] = {{a, (short)(open_a ? POLLIN : 0), 0}, {b, (short)(open_b ? POLLIN : 0), 0}};
+			if (!open_a && !open_b) { std::this_thread::sleep_for(std::chrono::milliseconds(2)); continue; }
+			if (poll(p, 2, 5) <= 0) continue;
+			for (int k = 0; k < 2; ++k) {
+				if (!(p[k].revents & (POLLIN | POLLHUP | POLLERR))) continue;
+				const int from = k ? b : a, to = k ? a : b;
+				const ssize_t got = recv(from, buf, sizeof buf, MSG_DONTWAIT);
+				if (got > 0) { if (!blackhole.load()) { ssize_t off = 0; while (off < got) { const ssize_t w = ::send(to, buf + off, (size_t)(got - off), MSG_NOSIGNAL); if (w <= 0) break; off += w; } } }
+				else if (got == 0 || (errno != EAGAIN && errno != EINTR)) { (k ? open_b : open_a) = false; ::shutdown(to, SHUT_WR); }	// pass the close on
+			}
+		}
+	}
+	void start(int fa, int fb) { a = fa; b = fb; stop = false; blackhole = false; th = std::thread([this] { run(); }); }
+	void end() { if (th.joinable()) { stop = true; th.join(); } if (a >= 0) ::close(a); if (b >= 0) ::close(b); a = b = -1; }
+};
+
 static void two_case(long long n, uint64_t seed, const std::string& dir)
 {
 	vh::Rng r(seed * 48271 + n);
@@ -147,6 +174,12 @@ static void two_case(long long n, uint64_t seed, const std::string& dir)
 	if (bind(lsn, (sockaddr *)&a, sizeof a) || listen(lsn, 4)) { perror("listen"); exit(2); }
 	socklen_t l = sizeof a; getsockname(lsn, (sockaddr *)&a, &l);
 	Poco::Net::SocketAddress addr("127.0.0.1", ntohs(a.sin_port));
+	int lsnA = socket(AF_INET, SOCK_STREAM, 0);
+	setsockopt(lsnA, SOL_SOCKET, SO_REUSEADDR, &one, sizeof one);
+	sockaddr_in aa{}; aa.sin_family = AF_INET; aa.sin_addr.s_addr = htonl(INADDR_LOOPBACK); aa.sin_port = 0;
+	if (bind(lsnA, (sockaddr *)&aa, sizeof aa) || listen(lsnA, 4)) { perror("listen"); exit(2); }
+	l = sizeof aa; getsockname(lsnA, (sockaddr *)&aa, &l);
+	Proxy proxy;
 	Side I{'I'}, A{'A'};
 	std::vector<std::pair<char, std::string>> sent;	// (sending side, id) in send order, only sends that returned true
 	std::string trace;
@@ -167,7 +200,13 @@ static void two_case(long long n, uint64_t seed, const std::string& dir)
 		I.sock = new Poco::Net::StreamSocket;
 		I.conn = new ClientConnection(I.sock, addr, *I.ses, 30, pm, true);
 		if (I.ses->start(I.conn, false)) { return false; }
-		const int fd = accept(lsn, nullptr, nullptr);
+		const int pi = accept(lsn, nullptr, nullptr);	// the initiator's connection ends at the forwarder ...
+		const int pa = socket(AF_INET, SOCK_STREAM, 0);
+		if (pi < 0 || pa < 0 || connect(pa, (sockaddr *)&aa, sizeof aa)) { perror("forwarder"); exit(2); }
+		setsockopt(pi, IPPROTO_TCP, TCP_NODELAY, &one, sizeof one); setsockopt(pa, IPPROTO_TCP, TCP_NODELAY, &one, sizeof one);
+		const int fd = accept(lsnA, nullptr, nullptr);	// ... which connects on to the acceptor
+		proxy.end();
+		proxy.start(pi, pa);
 		A.fd = fd;
 		A.own_persist = fpa;
 		A.sock = new Poco::Net::StreamSocket(new Poco::Net::StreamSocketImpl(fd));
@@ -276,24 +315,25 @@ static void two_case(long long n, uint64_t seed, const std::string& dir)
 		} else {
 			// a fault: abrupt drop of the connection, or one side dies; optionally sends into the void; then both sides come back
 			++faults;
-			const int f = (int)r.below(3);
+			const int f = (int)r.below(4);
 			if (r.chance(50)) {	// otherwise the fault hits traffic in flight
 				// sessions that are stuck here stay stuck until something from outside (the fault below) happens to them: a violation too
 				if (settle("before the next fault") == -2) { R.viol("oracle:sessions-stuck-without-agreement|" + cls, d + admin_tail(1500)); failed = true; break; }
 			}
 			if (f == 0) { trace += "[drop"; if (A.fd >= 0) ::shutdown(A.fd, SHUT_RDWR); }
+			else if (f == 3) { trace += "[part"; proxy.blackhole = true; }	/* partition: whatever either side sends from now on is lost */
 			else if (f == 1) { trace += "[killI"; I.destroy(); }
 			else { trace += "[killA"; A.destroy(); }
 			std::this_thread::sleep_for(std::chrono::milliseconds(r.range(0, 5)));
 			// sends while disconnected: they count only if send() reported success
-			for (int j = 0, cnt = (int)r.range(0, 3); j < cnt; ++j) {
-				Side& sd = r.chance(50) ? I : A;
+			for (int j = 0, cnt = (int)r.range(f == 3 ? 1 : 0, f == 3 ? 4 : 3); j < cnt; ++j) {
+				Side& sd = f == 3 ? (j % 2 ? A : I) : r.chance(50) ? I : A;
 				if (!sd.ses) continue;
 				const std::string id = std::string(1, sd.name) + std::to_string(n) + "_" + std::to_string(++ident);
 				const bool ok = do_send(sd, id);
 				if (ok) { sent.push_back({sd.name, id}); trace += (char)tolower(sd.name); } else trace += 'x';
 			}
-			I.destroy(); A.destroy();
+			I.destroy(); A.destroy(); proxy.end();
 			trace += "]";
 			if (!connect_both()) { inconclusive = true; R.viol("inconclusive:connect-failed", trace); break; }
 			if (r.chance(40)) {
@@ -355,8 +395,8 @@ static void two_case(long long n, uint64_t seed, const std::string& dir)
 	R.distinct("schedule", vh::hash_str(trace, (uint64_t)pm));
 	if (R.want_sample() && n % 3 == 0) R.sample("{\"model\":\"" + cls + "\",\"trace\":" + vh::jstr(trace.substr(0, 200)) + ",\"sent\":" + std::to_string(sent.size()) + ",\"faults\":" + std::to_string(faults) + "}");
 out:
-	I.destroy(); A.destroy();
-	::close(lsn);
+	I.destroy(); A.destroy(); proxy.end();
+	::close(lsn); ::close(lsnA);
 	for (const char *sfx : {".I", ".I.idx", ".A", ".A.idx"}) ::unlink((base + sfx).c_str());
 }
 
